@@ -106,6 +106,34 @@ def planted_three_relevant_worlds(rng):
     return gd, out, cond
 
 
+TEMPLATES = [
+    # (directed, bidirected, outcomes, conditions): letters are roles; every '-' is mapped to one polarity per variable
+    ("BZ ZY AY", "ZY AY RY", ["Y@B", "R@AB"], ["B@B"]),                       # subscripts only on a merged non-event node
+    ("BZ ZY AY", "ZY AY RY", ["Y@B"], ["R@AB"]),
+    ("BC XC", "BM MX XD", ["C@BM"], ["M@BC", "X@B", "C@BX"]),                  # four worlds, equal copies on a diagonal
+    ("EZ ZD DA DW", "ED AW", ["D@EW"], ["D@WZ", "Z@AW", "E@", "A@W"]),         # four worlds and the factual one
+    ("BC XC", "BM MX XD", ["C@BM", "D@X"], ["X@B", "C@BX"]),
+]
+
+
+def planted_template(rng):
+    di_s, bi_s, outs, conds = rng.choice(TEMPLATES)
+    letters = sorted({ch for part in (di_s + bi_s).split() for ch in part} | {ch for t in outs + conds for ch in t if ch.isalpha()})
+    nm = gg.names(len(letters), rng, unsorted=rng.random() < 0.3)
+    rng.shuffle(nm)
+    name = dict(zip(letters, nm))
+    pol = {l: rng.random() < 0.5 for l in letters}
+    di = [[name[e[0]], name[e[1]]] for e in di_s.split()]
+    bi = [[name[e[0]], name[e[1]]] for e in bi_s.split()]
+    gd = {"nodes": sorted(nm) if rng.random() < 0.5 else nm, "di": di, "bi": bi, "hostile": "planted-template"}
+
+    def conj(t):
+        v, w = t.split("@")
+        return [name[v], [[name[x], pol[x]] for x in w], pol[v]]
+
+    return gd, [conj(t) for t in outs], [conj(t) for t in conds]
+
+
 def run_shard(ctx):
     gg.ALLOW_ODD = True  # node names that are not Python identifiers are node names like any other
     mon_cf.install_idcstar()
@@ -116,6 +144,11 @@ def run_shard(ctx):
     for i in range(ctx.share({"quick": 20000, "thorough": 150000}[ctx.tier])):
         n = rng.choice([2, 3, 3, 4, 4, 4] + ([5] if ctx.tier == "thorough" else []))
         gd = gg.random_admg(rng, n)
+        if i % 20 == 3:
+            gd, out, cond = planted_template(rng)
+            classes["planted_template"] = classes.get("planted_template", 0) + 1
+            run_case(ctx, gd, out, cond, "planted_template")
+            continue
         if i % 20 == 13:
             gd, out, cond = planted_three_relevant_worlds(rng)
             classes["planted_three_relevant_worlds"] = classes.get("planted_three_relevant_worlds", 0) + 1
